@@ -344,6 +344,21 @@ func (ex *Exec) oblige(kind string, site string, pos token.Pos, text string, con
 		ex.assume(cond)
 		return
 	}
+	if ex.contract != nil {
+		if only, ok := ex.contract.Options["only"]; ok {
+			// the contract is about the listed obligation kinds only: the others are neither generated nor assumed
+			keep := false
+			for _, k := range strings.Fields(strings.ReplaceAll(only, ",", " ")) {
+				if k == kind {
+					keep = true
+				}
+			}
+			if !keep {
+				ex.note("stated in the contract of " + relName(ex.root) + ": only its " + only + " obligations are generated (option only); its other obligations (memory safety, callee preconditions) are not checked under this contract")
+				return
+			}
+		}
+	}
 	fnName := relName(ex.root)
 	key := kind + "|" + site
 	ob := ex.obls[key]
